@@ -51,6 +51,11 @@ def analyse_one(prog, module, clsname, rep):
             rep.undecided("R-C20-a", where, "%s activation" % kname, "no %s invocation of the task function found" % kname)
             continue
         for entry in evs:
+            if entry["via"] == "map":
+                rep.violated("R-C20-b", "%s@%d" % (where, entry.line), "%s task driven by the builtin map()" % kname,
+                             "an exception derived from StopIteration raised by the callback inside the mapped function is taken by the consumer of the map object (list(), a for loop) as the end of the iteration: "
+                             "the remaining sub-cubes are skipped and calculate returns a partial result instead of raising",
+                             witness={"history": "check_interrupt = iter(range(n)).__next__ (a budget), or raising a subclass of StopIteration: calculate returns normally"})
             tev = tasks.task_events(info, entry)
             checks = [e for e in tev if is_check_call(e)]
             cons = "%s task: callback placement" % kname
